@@ -405,6 +405,17 @@ def run(index: RepoIndex, rep) -> None:
     rep.rule('C19.R6', 'the fan of compute_rays_fancy is aimed at the cell corners of the area '
              'relative to the origin (necessary for coverage)', floor=1)
     fan_targets(index, rep, 'C19.R6')
+    rep.rule('C19.R7', 'the counters of the ray-traced views can hold one count per ray of the '
+             'fan (an unobstructed view shows every cell, the origin included; C06.R4)', floor=2)
+    from ..inline import inlined_function
+    from .c06 import _narrow_counters, _opacity_tables_to_cells
+    for vn in ('raytracing', 'stochastic_raytracing'):
+        vf = index.func('gym_gridverse/envs/visibility_functions.py', vn)
+        vnode = _opacity_tables_to_cells(inlined_function(index, vf)[0],
+                                         vf.node.args.args[0].arg)
+        _narrow_counters(rep, vnode, vn, 'C19.R7')
+        rep.holds('C19.R7', f'gym_gridverse/envs/visibility_functions.py:{vn}',
+                  'incremented arrays scanned for narrow element types')
     rep.rule('C19.R5', 'ray samples keep the row and the column coordinate apart (axis typing, E14)', floor=1)
     from ..axes import axis_rule
     axis_rule(index, rep, 'C19.R5', ('gym_gridverse/utils/raytracing.py',), floor=4)
